@@ -8,7 +8,7 @@ variable and fails closed if the result depends on it."""
 import re
 
 from ylib import facts as F
-from ylib.formula import Formulas, truth_check, fshow
+from ylib.formula import Formulas, truth_check, fshow, missing_atoms
 from .common import *  # noqa
 
 
@@ -221,6 +221,10 @@ def check_pred(R, ctx, rid, name):
         return bool(ent["req"](full))
     ok, cex, keys = truth_check(f, cls, req, max_atoms=12)
     unknown = [k for k in keys if cls(k, None) is None]
+    gone = missing_atoms(f, cls, lambda n: ent["req"]({x: n.get(x, False) for x in names}), names)
+    if gone:
+        ok = False
+        cex = "the predicate no longer tests %s" % gone
     R.ob(rid, fn, "formula:" + name, ok,
          "%s = %s (%s)" % (name, fshow(f)[:200], ent["why"][:80]) if ok else
          "%s deviates from its required truth table — %s. counterexample: %s; unclassified conditions: %s; formula = %s" %
